@@ -10,6 +10,7 @@
   * an attribute that can hold `None` is an `Option`.
 -/
 import Cvss.Basic
+import Cvss.Model.Float
 namespace Cvss.Py
 open Cvss
 
@@ -153,6 +154,41 @@ def fmin (a b : Option Rat) : Option Rat := if flt b a then b else a
 def finite : Option Rat → M Rat
   | some x => .ok x
   | none => .error .other
+
+/-- `s.split(sep, 1)`: at most two pieces -/
+def split1 (sep : Char) (s : Str) : List Str :=
+  match splitFirst sep s with
+  | some (a, b) => [a, b]
+  | none => [s]
+
+/-- `xs[i]` for a constant index: IndexError past the end -/
+def listAt {α : Type} (xs : List α) (i : Nat) : M α :=
+  match xs[i]? with
+  | some x => .ok x
+  | none => .error .indexError
+
+/-- a Python `float` obtained from text (the literal grammar of `float()` and IEEE binary64 are modelled in
+    `Cvss/Model/Float.lean`; these are the semantics of a BUILTIN, tied to CPython by C12's literal correspondence) -/
+abbrev FVal := Cvss.Model.Float.FVal
+
+/-- `float(text)`: ValueError unless the text is a float literal -/
+def float (s : Str) : M FVal :=
+  match Cvss.Model.Float.parseFloat s with
+  | some v => .ok v
+  | none => .error .valueError
+
+/-- `float(score) == x` for a one-decimal score (`None == x` is False) -/
+def scoreEq (score : Option Rat) (x : FVal) : Bool :=
+  match score with
+  | some q => Cvss.Model.Float.eqScore q x
+  | none => false
+
+/-- `str(float(score))` of a one-decimal score in [0, 10]: "7.5", "10.0"; `str(None)` -/
+def strScore : Option Rat → Str
+  | none => c!"None"
+  | some q =>
+    let t := (q * 10).floor.toNat
+    natToStr (t / 10) ++ '.' :: natToStr (t % 10)
 
 /-- `s.endswith(p)` -/
 def endsWith (p s : Str) : Bool := p.reverse.isPrefixOf s.reverse
